@@ -190,6 +190,7 @@ func initEntries() {
 	addEntry("NewBlockHashesData", "protocol", 2, NewBlockHashesData{}, nil)
 	addEntry("BlocksData", "protocol", 1, BlocksData{}, nil)
 	addEntry("GetNodeDataMsgData", "protocol", 2, GetNodeDataMsgData{}, nil)
+	addEntry("Receipts", "receipt", 1, []*types.Receipt{}, nil)
 	initVia()
 }
 
@@ -952,6 +953,8 @@ func gen(seed uint64, n int, outDir, corpusDir string) {
 			}
 		}
 	}
+	// containers large enough to outgrow the encoder's pooled buffers, cold and warm, all encode paths
+	g.largeContainerCampaign()
 	// the other empty kind at every empty place of transaction-bearing values: the accepted
 	// second spelling of a nil recipient must be reached (alone and inside containers) on every
 	// run, it is what the one-hash clause is about
@@ -1065,6 +1068,14 @@ func replay(file string) {
 		g.vrfObs("replay", "corpus", b, res, pan)
 	case strings.HasPrefix(h.Type, "handler:"):
 		replayHandler(g, h)
+	case strings.HasPrefix(h.What, "large-container"):
+		e := entryByName(h.Type)
+		o := goDecode(e, b, false)
+		if e == nil || !o.Accepted {
+			fmt.Println("the stored encoding does not decode")
+			os.Exit(2)
+		}
+		g.largeContainerCheck(e, o.obj, 0, false)
 	case strings.HasPrefix(h.What, "encoder-reader-path-differs") || strings.HasPrefix(h.What, "encoder-writer-path-differs"):
 		e := entryByName(h.Type)
 		o := goDecode(e, b, false)
